@@ -66,6 +66,23 @@ Definition lookup (d : gdata) (r v u : Z) : option Z :=
                 end
   end.
 
+(* A panel given by a formula instead of a table (wide panels: hundreds to 2^16+ reference
+   samples).  Variant v carries (mult, shift, modulus); reference haplotype h = 2*sample+strand
+   carries allele (h*mult + shift) mod modulus there.  harness/c03.py [ref_data] writes the panel
+   file from the same formula. *)
+Fixpoint zseq (start : Z) (n : nat) : list Z :=
+  match n with
+  | O => []
+  | S k => start :: zseq (start + 1) k
+  end.
+
+Definition fcell (h : Z) (f : Z * Z * Z) : Z := let '(m, s, a) := f in (h * m + s) mod a.
+
+Definition frow (fs : list (Z * Z * Z)) (r : Z) : list (Z * Z) :=
+  map (fun f => (fcell (2 * r) f, fcell (2 * r + 1) f)) fs.
+
+Definition fdata (nref : Z) (fs : list (Z * Z * Z)) : gdata := map (frow fs) (zseq 0 (Z.to_nat nref)).
+
 Fixpoint number_from {A} (i : Z) (l : list A) : list (Z * A) :=
   match l with
   | [] => []
